@@ -1,6 +1,7 @@
 package work
 
 import (
+	"encoding/binary"
 	"fmt"
 	"math/rand/v2"
 	"reflect"
@@ -191,6 +192,61 @@ func c03Case(c *core.Ctx, idx int) {
 		if d := model.Diff(want.Elem(), got.Elem(), "$"); d != "" {
 			rec.Violation("evolved-decode", fmt.Sprintf("decoding data of S into S' gives the wrong target: %s (shared indexes take the value from the data, other fields keep the prior value, unknown fields are skipped exactly) %s\n  got  %s\n  want %s", d, desc(), model.Show(got.Elem()), model.Show(want.Elem())), map[string]any{"S": typeString(tc.typ), "S2": typeString(s2)})
 			return
+		}
+		// fields of a far later version: their indexes are those of S' plus a multiple of 2^29 or 2^32
+		// (tags of five to nine bytes), each with the wire type S' has at the low index. They are unknown
+		// to S' and are skipped; the result is what the message without them gives
+		if j%4 == 2 {
+			far := append([]byte(nil), data...)
+			nfar := 0
+			for _, f := range model.Fields(s2) {
+				if nfar == 6 {
+					break
+				}
+				shift := []uint{29, 29, 30, 31, 32, 35, 40, 56}[rv.IntN(8)]
+				fidx := uint64(f.Index) + uint64(1+rv.IntN(7))<<shift
+				if fidx >= 1<<60 {
+					continue
+				}
+				wt := tc.cfg.WireType(f.Type, f.Opt)
+				if tc.cfg.Repeated(f.Type, f.Opt) {
+					wt = 2
+				}
+				far = binary.AppendUvarint(far, fidx<<3|uint64(wt))
+				switch wt {
+				case 0:
+					far = append(far, 0xd5, 0x2a)
+				case 1:
+					far = append(far, 1, 2, 3, 4, 5, 6, 7, 0x40)
+				case 5:
+					far = append(far, 1, 2, 3, 0x40)
+				case 2:
+					far = append(far, 3, 0x08, 0x02, 0x61)
+				case 3:
+					far = append(far, 1, 2, 0x08, 0x02)
+				default:
+					continue
+				}
+				nfar++
+			}
+			g2 := reflect.New(s2)
+			g2.Elem().Set(model.DeepCopy(prior))
+			if j%2 == 1 {
+				g2.Elem().Set(model.DeepCopy(want.Elem())) // (recycled targets differ from prior: decode over the result instead)
+			}
+			err, pn := unmarshal(tc.p, far, g2.Interface())
+			rec.Eval(1)
+			if err != nil || pn != "" {
+				rec.Violation("evolved-decode-error", fmt.Sprintf("data of S followed by %d fields with indexes beyond 2^29 does not decode into S': %v %s %s\n  with the far fields %s", nfar, err, trunc1(pn), desc(), hexHead(far)), nil)
+				return
+			}
+			if j%2 == 0 {
+				if d := model.Diff(want.Elem(), g2.Elem(), "$"); d != "" {
+					rec.Violation("evolved-decode", fmt.Sprintf("%d unknown fields whose indexes are those of S' plus a multiple of 2^29 were not skipped: %s %s\n  with the far fields %s\n  got  %s\n  want %s", nfar, d, desc(), hexHead(far), model.Show(g2.Elem()), model.Show(want.Elem())), nil)
+					return
+				}
+			}
+			rec.Count("far_index_fields_skipped", nfar)
 		}
 		// metamorphic: top-level fields shared with an identical type get exactly what decoding into S gives
 		if j%3 == 0 {
